@@ -60,6 +60,7 @@ type World struct {
 	Forks   []*forkRep
 	Chain   []*chainBlock // index = height-1
 	History [][]byte
+	HistPlain []bool // the entry is a tx exactly as the harness signed it (its nonce field is the signed nonce)
 	Parked  []string // hex of genuine txs that passed some node's mempool check and were not put into a block yet
 
 	cur      *BlockStep
@@ -511,6 +512,7 @@ func (w *World) RunBlock(h int64, step *BlockStep) {
 	w.Chain = append(w.Chain, cb)
 	for _, p := range plans {
 		w.History = append(w.History, p.Bytes)
+		w.HistPlain = append(w.HistPlain, p.Tx != nil && !p.Tampered && !p.Garbage && !p.SigMalleated && !p.InertMut && p.Intent.Mut == nil && p.ReplayOf < 0 && p.Intent.Kind != "raw" && p.Intent.Kind != "bytes" && !p.Intent.WrongChain && !p.Intent.EmptyChain)
 	}
 	if step.DtMs > 60_000 {
 		w.Probes.Hit("fault.time-jump")
